@@ -11,10 +11,11 @@ script bytes, `okeyB`).  The serialised line uses the byte-level instance (`H :=
 5 countersignatory payment point, 6 broadcaster funding, 7 countersignatory funding; 0 = malformed.
 
 ops
-  setup <l|s|a|z> <outbound> <holderDelay> <cpDelay> <txid> <vout> <channelValue> <obscure> <strict>
+  setup <l|s|a|z> <outbound> <holderDelay> <cpDelay> <txid> <vout> <channelValue> <obscure> <strict> <policy mode> <point id>   (the last two concern the implementation only)
   keys <k1> … <k7> <hash160 k1> <hash160 k5>          (hex; the 33-byte keys of ids 1..7)
   content <commitNum> <feerate> <toCs> <toBc> {o|r}:<value>:<hash>:<cltv>:<ripemd160 hex>…
         → canonical transaction rendering | HTLC-tx fields | hex of `ser (canon c)` (or `panic`)
+  restart                                 → ok (the channel is persisted and restored: identity on the setup)
   p2 <ok|err|panic>                       → accept / reject of phase 2 on the current content
   p1 <ok|err|panic> <mutation…>           → accept <csVal> <bcVal> / reject of phase 1 on the mutated canonical tx
 -/
@@ -120,7 +121,7 @@ def envOf (strict : Bool) (pol : Except Kind Unit) : Env :=
   { chanOk := true, pre := fun _ _ => pol, post := fun _ _ => true, mismatchIsError := strict,
     fundingKey := 100, htlcKey := 101 }
 
-def crypto : Crypto H Unit Unit := ⟨fun _ => (), fun _ => (), fun _ _ => ()⟩
+def crypto : Crypto H Unit Unit := ⟨fun _ _ => (), fun _ => (), fun _ _ => ()⟩
 
 /-- change one field of a script template -/
 def modScript (sc : Script) (field : String) (v : Int) : Script :=
@@ -229,7 +230,7 @@ def mutate (tx : CTx H) (ws : List (Option Script)) : List String → Option (CT
 
 def step (st : St) (toks : List String) : St × String :=
   match toks with
-  | ["setup", t, ob, hd, cd, txid, vout, cv, obs, strict] =>
+  | ["setup", t, ob, hd, cd, txid, vout, cv, obs, strict, _mode, _point] =>
     match ctype? t, bool? ob, nat? hd, nat? cd, nat? txid, nat? vout, nat? cv, nat? obs, bool? strict with
     | some t, some ob, some hd, some cd, some txid, some vout, some cv, some obs, some strict =>
       ({ st with setup := ⟨t, ob, hd, cd, txid, vout, cv, obs⟩, strict := strict }, "ok")
@@ -239,6 +240,7 @@ def step (st : St) (toks : List String) : St × String :=
     | some ks, some h1, some h5 => ({ st with keyTab := [] :: ks, h160rev := beNat h1, h160pay := beNat h5 }, "ok")
     | _, _, _ => (st, "bad-op")
   | "content" :: cn :: fr :: toCs :: toBc :: hts =>
+    if st.keyTab.isEmpty then (st, "no-keys") else
     match nat? cn, nat? fr, nat? toCs, nat? toBc, hts.mapM htlcTok? with
     | some cn, some fr, some toCs, some toBc, some hts =>
       let offered := hts.filterMap fun (o, h, _) => if o then some h else none
@@ -255,6 +257,9 @@ def step (st : St) (toks : List String) : St × String :=
       let st' := { st1 with ranks := cands.map fun p => (p, okeyB env (spkToNat env p)) }
       (st', render st')
     | _, _, _, _, _ => (st, "bad-op")
+  | ["restart"] =>
+    -- persist + restore is the identity on the setup (C04_restart_same_sig)
+    ({ st with setup := restoreChannel (persistChannel st.setup) }, "ok")
   | ["p2", pol] =>
     match pol? pol with
     | some pol =>
